@@ -71,26 +71,27 @@ type vttDoc struct {
 }
 
 type vttRendering struct {
-	EOL          string   `json:"eol"`
-	BOM          bool     `json:"bom"`
-	HeaderTail   string   `json:"header_tail"`
-	ShortTimes   bool     `json:"short_times"`   // mm:ss.ttt when hours are 0
-	IDs          bool     `json:"ids"`           // write identifiers (model IDs are then honoured)
-	SettingsSep  string   `json:"settings_sep"`  // " " or "\t"
-	SettingOrder []int    `json:"setting_order"` // permutation of the 6 settings
-	RegionKeys   []int    `json:"region_keys"`   // permutation of the 5 optional region keys, id position drawn separately
-	RegionIDPos  int      `json:"region_id_pos"`
-	RegionsLate  bool     `json:"regions_late"` // define each region right before the first cue that uses it
-	BlankLines   []int    `json:"blank_lines"`
-	FinalEOL     bool     `json:"final_eol"`
-	CarryTags    bool     `json:"carry_tags"`   // leave tags open at end of line (the stack carries to the next line)
-	Reopen       bool     `json:"reopen"`       // close all and reopen all tags between runs instead of the minimal transition
-	Unterminated bool     `json:"unterminated"` // leave tags open at the end of the cue
-	CloseVoice   bool     `json:"close_voice"`  // write </v> at the end of the line when no other tag is open
-	NoteSplit    bool     `json:"note_split"`   // every comment line in its own NOTE block
-	TSMapOrder   bool     `json:"tsmap_mpegts_first"`
-	NBSPEntity   bool     `json:"nbsp_entity"`
-	Padding      []string `json:"padding"` // around -->
+	EOL             string   `json:"eol"`
+	BOM             bool     `json:"bom"`
+	HeaderTail      string   `json:"header_tail"`
+	ShortTimes      bool     `json:"short_times"`                 // mm:ss.ttt when hours are 0
+	RegionsInHeader bool     `json:"regions_in_header,omitempty"` // region lines directly under the WEBVTT line
+	IDs             bool     `json:"ids"`                         // write identifiers (model IDs are then honoured)
+	SettingsSep     string   `json:"settings_sep"`                // " " or "\t"
+	SettingOrder    []int    `json:"setting_order"`               // permutation of the 6 settings
+	RegionKeys      []int    `json:"region_keys"`                 // permutation of the 5 optional region keys, id position drawn separately
+	RegionIDPos     int      `json:"region_id_pos"`
+	RegionsLate     bool     `json:"regions_late"` // define each region right before the first cue that uses it
+	BlankLines      []int    `json:"blank_lines"`
+	FinalEOL        bool     `json:"final_eol"`
+	CarryTags       bool     `json:"carry_tags"`   // leave tags open at end of line (the stack carries to the next line)
+	Reopen          bool     `json:"reopen"`       // close all and reopen all tags between runs instead of the minimal transition
+	Unterminated    bool     `json:"unterminated"` // leave tags open at the end of the cue
+	CloseVoice      bool     `json:"close_voice"`  // write </v> at the end of the line when no other tag is open
+	NoteSplit       bool     `json:"note_split"`   // every comment line in its own NOTE block
+	TSMapOrder      bool     `json:"tsmap_mpegts_first"`
+	NBSPEntity      bool     `json:"nbsp_entity"`
+	Padding         []string `json:"padding"` // around -->
 }
 
 func fmtVTTTime(ms int64, short bool) string {
@@ -198,6 +199,21 @@ func renderVTT(d vttDoc, r vttRendering) []byte {
 			emit("X-TIMESTAMP-MAP=" + loc + "," + ts)
 		}
 	}
+	defined := map[string]bool{}
+	used := map[string]bool{}
+	for _, c := range d.Cues {
+		used[c.Region] = true
+	}
+	early := 0
+	if r.RegionsInHeader {
+		// region definitions as header lines: right under the WEBVTT (and timestamp map) line, no blank line in between
+		for _, rg := range d.Regions {
+			if !r.RegionsLate || !used[rg.ID] {
+				emit(renderVTTRegion(rg, r))
+				defined[rg.ID] = true
+			}
+		}
+	}
 	emit("")
 	for _, blk := range d.Styles {
 		emit("STYLE")
@@ -206,13 +222,10 @@ func renderVTT(d vttDoc, r vttRendering) []byte {
 		}
 		emit("")
 	}
-	defined := map[string]bool{}
-	used := map[string]bool{}
-	for _, c := range d.Cues {
-		used[c.Region] = true
-	}
-	early := 0
 	for _, rg := range d.Regions {
+		if defined[rg.ID] {
+			continue
+		}
 		if !r.RegionsLate || !used[rg.ID] {
 			emit(renderVTTRegion(rg, r))
 			defined[rg.ID] = true
@@ -612,6 +625,11 @@ func toSubtitlesVTT(d vttDoc) *astisub.Subtitles {
 		it.Comments = append([]string(nil), c.Comments...)
 		if c.Align != "" || c.Line != "" || c.Position != "" || c.Size != "" || c.Vertical != "" {
 			it.InlineStyle = &astisub.StyleAttributes{WebVTTAlign: c.Align, WebVTTLine: c.Line, WebVTTPosition: c.Position, WebVTTSize: c.Size, WebVTTVertical: c.Vertical}
+			if n := len(c.Align) + len(c.Size) + len(c.Vertical); (c.Line != "" || c.Position != "") && n > 0 && c.Start%3 == 0 {
+				// some settings come from the cue's style, the others are the cue's own: each falls back on its own
+				it.Style = &astisub.Style{ID: fmt.Sprintf("cue-settings-%d", c.Start), InlineStyle: &astisub.StyleAttributes{WebVTTAlign: c.Align, WebVTTSize: c.Size, WebVTTVertical: c.Vertical}}
+				it.InlineStyle.WebVTTAlign, it.InlineStyle.WebVTTSize, it.InlineStyle.WebVTTVertical = "", "", ""
+			}
 		}
 		if c.Region != "" {
 			it.Region = s.Regions[c.Region]
@@ -828,25 +846,26 @@ func genPerm(t *rapid.T, n int, label string) []int {
 func genVTTRendering(t *rapid.T) vttRendering {
 	pads := []string{" ", " ", "  ", "\t"}
 	r := vttRendering{
-		EOL:          rapid.SampledFrom([]string{"\n", "\n", "\r\n", "\r\n", "\r"}).Draw(t, "eol"),
-		BOM:          rapid.Bool().Draw(t, "bom"),
-		HeaderTail:   rapid.SampledFrom([]string{"", "", "- Translation of that film I like", "file"}).Draw(t, "tail"),
-		ShortTimes:   rapid.Bool().Draw(t, "short"),
-		IDs:          rapid.IntRange(0, 3).Draw(t, "ids") > 0,
-		SettingsSep:  rapid.SampledFrom([]string{" ", " ", "\t", "  "}).Draw(t, "ssep"),
-		SettingOrder: genPerm(t, 6, "sperm"),
-		RegionKeys:   genPerm(t, 5, "rperm"),
-		RegionIDPos:  rapid.IntRange(0, 5).Draw(t, "ridpos"),
-		RegionsLate:  rapid.Bool().Draw(t, "rlate"),
-		FinalEOL:     rapid.Bool().Draw(t, "finaleol"),
-		CarryTags:    rapid.Bool().Draw(t, "carry"),
-		Reopen:       rapid.IntRange(0, 3).Draw(t, "reopen") == 0,
-		Unterminated: rapid.Bool().Draw(t, "unterm"),
-		CloseVoice:   rapid.Bool().Draw(t, "closev"),
-		NoteSplit:    rapid.Bool().Draw(t, "notesplit"),
-		TSMapOrder:   rapid.Bool().Draw(t, "tsorder"),
-		NBSPEntity:   rapid.Bool().Draw(t, "nbspent"),
-		Padding:      []string{rapid.SampledFrom(pads).Draw(t, "padl"), rapid.SampledFrom(pads).Draw(t, "padr")},
+		EOL:             rapid.SampledFrom([]string{"\n", "\n", "\r\n", "\r\n", "\r"}).Draw(t, "eol"),
+		BOM:             rapid.Bool().Draw(t, "bom"),
+		HeaderTail:      rapid.SampledFrom([]string{"", "", "- Translation of that film I like", "file"}).Draw(t, "tail"),
+		ShortTimes:      rapid.Bool().Draw(t, "short"),
+		RegionsInHeader: rapid.IntRange(0, 3).Draw(t, "regionsinheader") == 0,
+		IDs:             rapid.IntRange(0, 3).Draw(t, "ids") > 0,
+		SettingsSep:     rapid.SampledFrom([]string{" ", " ", "\t", "  "}).Draw(t, "ssep"),
+		SettingOrder:    genPerm(t, 6, "sperm"),
+		RegionKeys:      genPerm(t, 5, "rperm"),
+		RegionIDPos:     rapid.IntRange(0, 5).Draw(t, "ridpos"),
+		RegionsLate:     rapid.Bool().Draw(t, "rlate"),
+		FinalEOL:        rapid.Bool().Draw(t, "finaleol"),
+		CarryTags:       rapid.Bool().Draw(t, "carry"),
+		Reopen:          rapid.IntRange(0, 3).Draw(t, "reopen") == 0,
+		Unterminated:    rapid.Bool().Draw(t, "unterm"),
+		CloseVoice:      rapid.Bool().Draw(t, "closev"),
+		NoteSplit:       rapid.Bool().Draw(t, "notesplit"),
+		TSMapOrder:      rapid.Bool().Draw(t, "tsorder"),
+		NBSPEntity:      rapid.Bool().Draw(t, "nbspent"),
+		Padding:         []string{rapid.SampledFrom(pads).Draw(t, "padl"), rapid.SampledFrom(pads).Draw(t, "padr")},
 	}
 	nb := rapid.IntRange(1, 3).Draw(t, "nblank")
 	for i := 0; i < nb; i++ {
